@@ -74,8 +74,8 @@ int main(int argc, char **argv) {
     v.set("flavour", sj::Value::Str(sim::flavour_name()));
     v.set("exact", sj::Value::Bool(sim::kExact));
     v.set("maxord", sj::Value::Int((int)MAXORD));
-    v.set("default_init_tag_is_garbage", sj::Value::Bool(d != sim::TAG_OK && d != 0 && d != sim::TAG_DEAD));
-    v.set("value_init_tag_is_zero", sj::Value::Bool(z[0].raw_tag() == 0));
+    v.set("default_init_tag_is_unset", sj::Value::Bool(d == sim::TAG_UNSET));
+    v.set("value_init_tag_is_unset", sj::Value::Bool(z[0].raw_tag() == sim::TAG_UNSET));
     v.set("library_thread_locals_virtualised", sj::Value::Int(sim::tls_virtualised_variables()));
     emit("SELFTEST", v);
     fflush(stdout);
